@@ -152,7 +152,7 @@ def run(ctx):
         M = [m for i, m in enumerate(UNIVERSE) if mask >> i & 1]
         cases.append(({'kind': 'family', 'M': M, 'style': style, 'openssh': osh, 'algs': [alg]}, STYLES[style](M), None))
     for k_ in range(ctx.scale(250, 3000)):
-        script = [r.choice([None, None, 512, 1024, 1536, 2047, 2048, 2049, 3071, 3072, 4096, 8192, r.randint(1, 9000)]) for _ in range(20)]
+        script = [r.choice([None, None, 512, 1024, 1536, 2047, 2048, 2049, 3071, 3072, 4096, 8192, r.randint(16, 9000)]) for _ in range(20)]
         if k_ % 5 == 0:     # first pass ends on the 2048 fallback, then the follow-up probe is refused / answered
             script = [2048] * 6 + [r.choice([None, None, 3072, 4096, 2048, 1024])] + [None] * 13
         it = iter(script)
